@@ -553,9 +553,11 @@ def to_fpm_and_back_backprop(wavefunction, dx, wavelength, efl, fpm, fpm_dx=None
     if np.iscomplexobj(fpm):
         fpm = fpm.conj()
 
-    Ebbar = unfocus_fixed_sampling_backprop(wavefunction, fpm_dx, efl, wavelength, dx, fpm_samples)
+    # the same shifts as the two propagations of to_fpm_and_back, in reverse order
+    shift_back = (shift[0] / fpm_dx * dx, shift[1] / fpm_dx * dx)
+    Ebbar = unfocus_fixed_sampling_backprop(wavefunction, fpm_dx, efl, wavelength, dx, fpm_samples, shift=shift_back)  # NOQA
     intermediate = Ebbar * fpm
-    Eabar = focus_fixed_sampling_backprop(intermediate, dx, efl, wavelength, fpm_dx, wavefunction.shape)
+    Eabar = focus_fixed_sampling_backprop(intermediate, dx, efl, wavelength, fpm_dx, wavefunction.shape, shift=shift)  # NOQA
     if return_more:
         return Eabar, Ebbar, intermediate
     else:
